@@ -482,8 +482,81 @@ func ruleRD1(c *Ctx) {
 			}
 		}
 	}
+	// the selection may also be a shared helper (used by the claim and by its dry run alike) that hands back element 0
+	// of readyTasks(...) or nil when the list is empty
+	var selHelper *ssa.Function
+	var selCall *ssa.Call
+	if claimCb == nil {
+		for _, cs := range c.callers[rt] {
+			s := cs.Fn
+			rtc, ok := cs.Call.(*ssa.Call)
+			if !ok || s.Parent() != nil || len(callsTo(s, rt)) != 1 || s.Signature.Results().Len() != 1 {
+				continue
+			}
+			shape := true
+			nEl := 0
+			for _, r := range returnsOf(s) {
+				v := strip(returnedValue(r, 0))
+				if isNilConst(v) {
+					continue
+				}
+				ld, isLd := v.(*ssa.UnOp)
+				if !isLd {
+					shape = false
+					continue
+				}
+				ia, isIA := ld.X.(*ssa.IndexAddr)
+				if !isIA || resolve(ia.X) != ssa.Value(rtc) {
+					shape = false
+					continue
+				}
+				if i, isC := constInt(ia.Index); !isC || i != 0 {
+					shape = false
+				}
+				nEl++
+			}
+			if !shape || nEl == 0 {
+				continue
+			}
+			for _, ls := range c.F.LockSites {
+				if ls.Callback == nil {
+					continue
+				}
+				for _, g := range append([]*ssa.Function{ls.Callback}, c.unitOf(ls.Callback)...) {
+					for _, call := range callsTo(g, s) {
+						if cv, ok := call.(*ssa.Call); ok {
+							claimCb, rtCall, selHelper, selCall = g, rtc, s, cv
+						}
+					}
+				}
+			}
+		}
+	}
 	if claimCb == nil || rtCall == nil {
 		c.bad("<module>", "claim-site", "-", "no lock callback selects from readyTasks(...): the oldest-ready claim is not recognisable")
+	} else if selHelper != nil {
+		fn := c.Name(claimCb)
+		pos := c.Pos(selCall.Pos())
+		kind := constStr(rtCall.Call.Args[2])
+		c.check(kind == "task", fn, "kind-is-task", pos, "readyTasks is asked for the constant kind task (in "+c.Name(selHelper)+")", "claim asks readyTasks for kind "+c.canon(rtCall.Call.Args[2])+": an epic can be handed out")
+		okEp := false
+		var ep ssa.Value
+		if p, ok := resolve(rtCall.Call.Args[1]).(*ssa.Parameter); ok && p.Parent() == selHelper && paramIndex(p) < len(selCall.Call.Args) {
+			ep = resolveEnv(selCall.Call.Args[paramIndex(p)], c.autoEnv(claimCb))
+			_, okEp = ep.(*ssa.Parameter)
+		}
+		c.check(okEp, fn, "epic-filter-unchanged", pos, "the epic filter is the command's parameter, handed on unchanged through "+c.Name(selHelper), "the epic filter reaching readyTasks through "+c.Name(selHelper)+" is not the caller's value")
+		c.ok(fn, "takes-element-0", pos, "the claimed task is element 0 of the ready list ("+c.Name(selHelper)+" returns ready[0] or nil)")
+		nonNil := edgesWhere(claimCb, func(a Atom, holds bool) bool {
+			return a.Kind == "nil" && !holds && len(a.Env) == 0 && (strip(a.X) == ssa.Value(selCall) || holdsValue(a.X, selCall) || storedJustBefore(a.X) == ssa.Value(selCall))
+		})
+		okLen := len(nonNil) > 0
+		for _, em := range c.emissions() {
+			if em.Fn == claimCb && !mustPassEdges(claimCb, em.Call.Block(), nonNil) {
+				okLen = false
+			}
+		}
+		c.check(okLen, fn, "empty-means-no-ready", pos, "events are built only when the selection helper found a task", "claim can build events without checking that a ready task was found")
 	} else {
 		fn := c.Name(claimCb)
 		pos := c.Pos(rtCall.Pos())
